@@ -30,10 +30,13 @@ type Client struct {
 }
 
 type Fault struct {
-	Kind   string `json:"kind"` // none | kill-restart | pause | member-add (a 4th node joins; Target = the node that is asked) | member-remove (Target leaves; asked through another node)
+	Kind   string `json:"kind"` // none | kill-restart | pause | member-add (a 4th node joins; Target = the node that is asked) | member-remove (Target leaves; asked through another node) | isolate (Target is cut off from the others; Target 0 = whoever leads at that moment) | cut-pair (the link Target <-> Other is cut, both still reach the third node) | flap (Target is cut off and reconnected every FlapMs)
 	Target int    `json:"target"`
 	AtMs   int    `json:"at_ms"`
 	DurMs  int    `json:"dur_ms"`
+	Other  int    `json:"other,omitempty"`
+	Black  bool   `json:"black,omitempty"`   // link faults: connections stay open and deliver nothing (instead of being reset)
+	FlapMs int    `json:"flap_ms,omitempty"` // flap: period
 }
 
 type Case struct {
@@ -45,6 +48,8 @@ type Case struct {
 	// Member: the case changes the membership; it runs on a cluster of its own. Clients bound to node 4
 	// wait until the node that joins serves.
 	Member bool `json:"member,omitempty"`
+	// Links: the nodes reach each other through the harness's link forwarders (link faults)
+	Links bool `json:"links,omitempty"`
 }
 
 var keys = []string{"s0", "s1", "l0", "t0", "h0", "a", "b", "l1", "t1"}
@@ -184,12 +189,15 @@ var clusters = map[int]*srv.Cluster{}
 
 // clusterFor returns a running cluster of n nodes. oneCPU: the node processes run with GOMAXPROCS=1
 // (a legitimate deployment; it changes which goroutine gets to run first after a stall).
-func clusterFor(n int, oneCPU bool) (*srv.Cluster, error) {
+func clusterFor(n int, oneCPU, links bool) (*srv.Cluster, error) {
 	key := n
 	var env []string
 	if oneCPU {
 		key = n + 100
 		env = []string{"GOMAXPROCS=1"}
+	}
+	if links {
+		key += 200
 	}
 	c := clusters[key]
 	ok := c != nil
@@ -206,7 +214,7 @@ func clusterFor(n int, oneCPU bool) (*srv.Cluster, error) {
 	if c != nil {
 		c.Stop()
 	}
-	nc, err := srv.StartCluster(srv.ClusterOptions{Size: n, Env: env})
+	nc, err := srv.StartCluster(srv.ClusterOptions{Size: n, Env: env, Links: links})
 	if err != nil {
 		return nil, err
 	}
@@ -339,6 +347,9 @@ func exec(c Case) kit.Outcome {
 	if oneCPU {
 		ckey += 100
 	}
+	if c.Links {
+		ckey += 200
+	}
 	var cl *srv.Cluster
 	var err error
 	if c.Member {
@@ -347,10 +358,14 @@ func exec(c Case) kit.Outcome {
 			defer cl.Stop()
 		}
 	} else {
-		cl, err = clusterFor(c.Nodes, oneCPU)
+		cl, err = clusterFor(c.Nodes, oneCPU, c.Links)
 	}
 	if err != nil {
 		return kit.Outcome{Fail: "infrastructure: " + err.Error()}
+	}
+	if cl.Net != nil {
+		cl.Net.HealAll()
+		defer cl.Net.HealAll()
 	}
 	removed := map[int]bool{}
 	joined := make(chan struct{}) // closed when the joining node has been started and announced
@@ -369,7 +384,7 @@ func exec(c Case) kit.Outcome {
 	}
 	var mu sync.Mutex
 	var hist []porcupine.Operation
-	unknown, neverSent := 0, 0
+	unknown, neverSent, ledIsolated := 0, 0, 0
 	var wg sync.WaitGroup
 	start := make(chan struct{})
 	t0 := time.Now()
@@ -474,6 +489,83 @@ func exec(c Case) kit.Outcome {
 				cl.Kill(f.Target)
 				time.Sleep(time.Duration(f.DurMs) * time.Millisecond)
 				_ = cl.StartNode(f.Target)
+			case "isolate", "cut-pair", "flap":
+				if cl.Net == nil {
+					return
+				}
+				mode := int32(srv.LinkCut)
+				if f.Black {
+					mode = srv.LinkBlack
+				}
+				tgt := f.Target
+				if tgt == 0 {
+					if tgt = cl.Leader(); tgt == 0 {
+						tgt = 1
+					}
+					mu.Lock()
+					ledIsolated++
+					mu.Unlock()
+				}
+				switch f.Kind {
+				case "cut-pair":
+					cl.Net.SetPair(tgt, f.Other, mode)
+					time.Sleep(time.Duration(f.DurMs) * time.Millisecond)
+				case "flap":
+					for el := 0; el < f.DurMs; el += 2 * f.FlapMs {
+						cl.Net.Isolate(tgt, mode)
+						time.Sleep(time.Duration(f.FlapMs) * time.Millisecond)
+						cl.Net.Isolate(tgt, srv.LinkPass)
+						time.Sleep(time.Duration(f.FlapMs) * time.Millisecond)
+					}
+				default:
+					cl.Net.Isolate(tgt, mode)
+					time.Sleep(time.Duration(f.DurMs) * time.Millisecond)
+				}
+				// reads and writes queued on the separated node over fresh connections just before the links
+				// come back: a node that still believes it leads must not answer them from its own state
+				type qr struct {
+					cn   *srv.Conn
+					cmd  kit.Cmd
+					call int64
+				}
+				var queued []qr
+				if f.Kind == "isolate" {
+					for i := 0; i < 8; i++ {
+						cn, err := cl.Dial(tgt)
+						if err != nil {
+							continue
+						}
+						cmd := kit.MkCmd("GET", []string{"s0", "s1"}[i%2])
+						if i >= 6 {
+							cmd = kit.MkCmd("SET", []string{"s0", "s1"}[i%2], fmt.Sprintf("q%d-%d", tgt, i))
+						}
+						call := time.Since(t0).Nanoseconds()
+						if cn.Write(respx.EncodeCommand(cmd.Bytes()), time.Second) != nil {
+							cn.Close()
+							continue
+						}
+						queued = append(queued, qr{cn, cmd, call})
+					}
+					time.Sleep(150 * time.Millisecond)
+				}
+				if f.Kind == "cut-pair" {
+					cl.Net.SetPair(tgt, f.Other, srv.LinkPass)
+				} else {
+					cl.Net.Isolate(tgt, srv.LinkPass)
+				}
+				for i, q := range queued {
+					v, err := q.cn.Read(opTimeout)
+					ret := time.Since(t0).Nanoseconds()
+					op := porcupine.Operation{ClientId: 2000 + 10*tgt + i, Input: lin.In{Cmd: q.cmd, Part: string(q.cmd[1])}, Call: q.call, Output: lin.Out{Val: v}, Return: ret}
+					if err != nil {
+						op.Output = lin.Out{Unknown: true}
+						op.Return = 1 << 61
+					}
+					q.cn.Close()
+					mu.Lock()
+					hist = append(hist, op)
+					mu.Unlock()
+				}
 			case "pause":
 				cl.Signal(f.Target, syscall.SIGSTOP)
 				time.Sleep(time.Duration(f.DurMs) * time.Millisecond)
@@ -603,6 +695,9 @@ func exec(c Case) kit.Outcome {
 		}
 	}
 	o.NonTrivial = overl || len(c.Faults) > 0
+	if ledIsolated > 0 {
+		o.Labels = append(o.Labels, "leader-isolated")
+	}
 	kit.C.Label("indeterminate-ops", int64(unknown))
 	kit.C.Label("ops-never-sent-node-down", int64(neverSent))
 	switch lin.Check(hist, 20*time.Second) {
@@ -696,6 +791,71 @@ func genMemberCase(t *rapid.T) Case {
 		c.Faults = append(c.Faults, Fault{Kind: "member-remove", Target: 3 - plan, AtMs: at})
 	}
 	return c
+}
+
+// genPartitionCase: link faults. The nodes talk to each other through the harness's forwarders; one to
+// three link faults follow one another while clients on every node keep reading and writing: the leader
+// (whoever it is at that moment) or a named node is cut off for longer than the election time-out (reset
+// connections or black holes), a single link is cut while both ends still reach the third node, or a
+// node's links flap. Optionally a node of the majority side is killed and restarted during the fault.
+func genPartitionCase(t *rapid.T) Case {
+	c := Case{Nodes: 3, Links: true, PaceUs: rapid.SampledFrom([]int{20000, 40000}).Draw(t, "pace")}
+	if rapid.IntRange(0, 3).Draw(t, "multi") == 0 {
+		c.Multi = true
+	}
+	nf := rapid.IntRange(1, 3).Draw(t, "nfaults")
+	at := rapid.IntRange(100, 600).Draw(t, "at")
+	for i := 0; i < nf; i++ {
+		f := Fault{AtMs: at, Black: rapid.Bool().Draw(t, "black")}
+		switch gen.Weighted(t, "lf", []int{4, 3, 2, 2}) {
+		case 0:
+			f.Kind, f.Target, f.DurMs = "isolate", 0, rapid.SampledFrom([]int{5200, 6500}).Draw(t, "dur")
+		case 1:
+			f.Kind, f.Target, f.DurMs = "isolate", 1+rapid.IntRange(0, 2).Draw(t, "target"), rapid.SampledFrom([]int{800, 5200}).Draw(t, "dur")
+		case 2:
+			f.Kind, f.Target, f.DurMs = "cut-pair", 1+rapid.IntRange(0, 2).Draw(t, "target"), rapid.SampledFrom([]int{3000, 6000}).Draw(t, "dur")
+			f.Other = 1 + (f.Target+rapid.IntRange(0, 1).Draw(t, "other"))%3
+		default:
+			f.Kind, f.Target, f.DurMs = "flap", rapid.IntRange(0, 3).Draw(t, "target"), 5000
+			f.FlapMs = rapid.SampledFrom([]int{150, 600, 1300}).Draw(t, "flap")
+		}
+		c.Faults = append(c.Faults, f)
+		if f.Kind == "isolate" && f.Target != 0 && f.DurMs >= 5000 && rapid.IntRange(0, 3).Draw(t, "kill") == 0 {
+			// a node of the majority side goes down and comes back while the third one is cut off
+			c.Faults = append(c.Faults, Fault{Kind: "kill-restart", Target: 1 + f.Target%3, AtMs: at + 1500, DurMs: 800})
+		}
+		at += f.DurMs + rapid.IntRange(300, 2500).Draw(t, "gap")
+	}
+	nc := rapid.IntRange(4, 6).Draw(t, "clients")
+	per := (at + 1500) * 1000 / (c.PaceUs + 2000)
+	if per > 500 {
+		per = 500
+	}
+	for i := 0; i < nc; i++ {
+		cl := Client{Node: 1 + i%3}
+		for j := 0; j < per; j++ {
+			switch {
+			case c.Multi:
+				cl.Ops = append(cl.Ops, genMultiOp(t, i, j))
+			case j%3 == 0: // plenty of plain reads and writes on two keys: stale answers show there first
+				k := gen.Pick(t, "k", "s0", "s1")
+				if rapid.Bool().Draw(t, "w") {
+					cl.Ops = append(cl.Ops, kit.MkCmd("SET", k, fmt.Sprintf("c%d-%d", i, j)))
+				} else {
+					cl.Ops = append(cl.Ops, kit.MkCmd("GET", k))
+				}
+			default:
+				cl.Ops = append(cl.Ops, genOp(t, i, j))
+			}
+		}
+		c.Clients = append(c.Clients, cl)
+	}
+	return c
+}
+
+func TestPartitions(t *testing.T) {
+	defer stopAll()
+	kit.Check(t, kit.Spec[Case]{Sub: "load", Quick: 1, Thorough: 8, Gen: genPartitionCase, Exec: exec, NoShrink: true})
 }
 
 func TestMembership(t *testing.T) {
